@@ -357,6 +357,10 @@ OBLIGATIONS.append(Ob("two_calls_w2_t2_second_call_fixed_schedule", _mk(2, 2, nc
                       desc="two consecutive map calls, first call: all interleavings and failing positions; second call: one deterministic schedule",
                       encodes=ENC, stubs=["multiprocessing -> FIFO/baton model"],
                       bounds="2 workers, 2 tasks, 2 calls, failing index in -1..1 (first call only); second call not interleaved exhaustively", max_paths=4000000, wall_s=900))
+OBLIGATIONS.append(Ob("two_calls_w2_t2_two_failures_then_fixed_schedule", _mk(2, 2, ncalls=2, fix_later_calls=True, nfail=2), tier="quick", family="interleavings x failing position",
+                      desc="as many failing tasks as workers in the first call (symbolic positions), then a second call: the pool must still serve it (no worker lost to a failure)",
+                      encodes=ENC, stubs=["multiprocessing -> FIFO/baton model"],
+                      bounds="2 workers, 2 tasks, 2 calls, two failing indices each in -1..1 (first call only); second call not interleaved exhaustively", max_paths=4000000, wall_s=900))
 OBLIGATIONS.append(Ob("two_calls_w2_t2", _mk(2, 2, ncalls=2), tier="thorough", family="interleavings x failing position",
                       desc="two consecutive map calls, the first with a failing task at a symbolic position: the second call returns its own serial results",
                       encodes=ENC, stubs=["multiprocessing -> FIFO/baton model"],
